@@ -5,7 +5,7 @@ import numpy as np
 from hypothesis import strategies as st
 
 from vlib import env, gen, indep  # noqa: F401
-from vlib.build import build_molecule, lib, positions
+from vlib.build import build_molecule, lib, positions, step_cap
 from vlib.report import PropertyViolation
 from vlib.runner import Sub
 
@@ -51,7 +51,8 @@ def run_alignment(case, start, end):
     np.random.seed(case["seed"])
     restr = None if case.get("restr_none") else [tuple(r) for r in case["restr"]]
     deform = None if case["deform"] is None else tuple(case["deform"])
-    ali.align_molecules(restr, deform, case["ignore_h"])
+    with step_cap():
+        ali.align_molecules(restr, deform, case["ignore_h"])
     return ali
 
 
@@ -138,8 +139,9 @@ def check(case):
             raise PropertyViolation("reassign", "%s: re-assigning %s did not take the new coordinates" % (label, second))
         np.random.seed(case["seed2"])
         restr = None if case.get("restr_none") else [tuple(r) for r in case["restr"]]
-        lib("align-second", ali.align_molecules, restr, None if case["deform"] is None else tuple(case["deform"]),
-            case["ignore_h"])
+        with step_cap():
+            lib("align-second", ali.align_molecules, restr, None if case["deform"] is None else tuple(case["deform"]),
+                case["ignore_h"])
         if not np.array_equal(positions(newmol), newpos):
             raise PropertyViolation("caller-objects", "%s: the re-assigned Molecule object was modified" % label)
         judge(case, s0b, e0b, ali, label + " (second alignment after re-assigning %s)" % second)
